@@ -544,12 +544,15 @@ PROPS["C11"] = {
              "container, address the container only by the stream-style encoding of that name (so table streams are not "
              "reachable), return invalid / unknown names as errors without a creating or removing call, and never panic on "
              "these paths. The packing loops themselves (encode / decode build Strings char by char: 50 GB in Kani, loops in "
-             "MIR), Streams::next's filter, contents and aliasing under cfb's name comparison are outside.",
+             "MIR), contents and aliasing under cfb's name comparison are outside. (3) The listing: per container entry visited by "
+             "Streams::next (<= 2 entries per call), the entry is skipped exactly when it is not a stream, or its RAW container name equals one "
+             "of the four special stream names, or it decodes as a table stream; otherwise it is returned under streamname::decode of its raw "
+             "name; None only when the container has no more entries.",
     "note": "Trusted: MIR translator, models of char::is_ascii_* / char::from_u32 / Option::unwrap, protocol models, z3/cvc5. By "
             "reading (not decided): a character in U+3800..U+4840 passes through encode unchanged and is expanded by decode, so "
             "two accepted names can encode identically (streamname.rs).",
     "bounds": "all Unicode scalar values; all 6-bit values; one stream call from an arbitrary flag state",
-    "outside": "encode/decode loops, is_valid's length rule, listing, contents, digital-signature streams, cfb",
+    "outside": "encode/decode loops, is_valid's length rule, contents, digital-signature removal, cfb",
     "assumptions": list(__import__("vlib.mir_protocol", fromlist=["x"]).PROTOCOL_MODELS_DOC),
 }
 
@@ -589,8 +592,9 @@ PROPS["C05"] = {
              "reach the write, and the rows are re-sorted before being written. INSERT: every batch row's key is tested against the key-ordered "
              "map of existing rows and against the batch's own key set before anything is interned or written, a collision does not get that far, "
              "every batch row is inserted into the map, and what is written is the map's values in key order, untouched. NOT decided here: that "
-             "BTreeMap/HashSet/sort implement their contracts (std), that the key vectors handed to them are the primary-key cells of the row "
-             "(closures are not walked), cell validity of inserted rows (C07 decides that gate), is_valid_value itself (C07, engine K), "
+             "BTreeMap/HashSet/sort implement their contracts (std); for UPDATE the key vectors tested and sorted by are shown to be built by "
+             "mapping over Table::primary_key_indices() (the per-index closure that picks the cell is not walked), for INSERT the key "
+             "extraction is not examined; cell validity of inserted rows (C07 decides that gate), is_valid_value itself (C07, engine K), "
              "delete/insert cycles as such (delete removes rows by retain and cannot reorder), and the reopen part (C20/C01 decide the row codec "
              "and the save protocol).",
     "note": "Trusted: MIR translator, iterator models, z3/cvc5, std collections. The property's own anchors name the defect this check found on "
